@@ -67,6 +67,11 @@ Record case := mk_case {
 
 Definition rec_eqb (fs : list fdesc) (a b : list goval) : bool :=
   all3 (fun f x y => goval_eqb (norm (fd_kind f) x) (norm (fd_kind f) y)) fs a b.
+(* strict: a leaf under a nil embedded pointer must read back under a nil embedded pointer *)
+Definition is_absent (v : goval) : bool := match v with GAbsent => true | _ => false end.
+Definition rec_eqb_strict (fs : list fdesc) (a b : list goval) : bool :=
+  all3 (fun f x y => goval_eqb (norm (fd_kind f) x) (norm (fd_kind f) y)
+                     && (negb (fd_embptr f) || Bool.eqb (is_absent x) (is_absent y))) fs a b.
 Definition row_eqb (a b : list dbval) : bool := all2 dbval_eqb a b.
 Definition is_map_op (o : op) : bool := match o with OpMap | OpMaps | OpMapsPtr => true | _ => false end.
 
@@ -121,13 +126,13 @@ Definition spec_holds (c : case) : bool :=
   else
     (o_readerrs c =? 0) && (o_rowcount c =? n)
     (* read back into fresh structs by Find / First / Take: equal field values *)
-    && all2 (rec_eqb fs) (o_after c) (o_find c)
+    && all2 (if is_map_op (c_op c) then rec_eqb fs else rec_eqb_strict fs) (o_after c) (o_find c)
     (* ... for EVERY field of the struct, also one the schema gave no column of its own *)
     && all2 (fun b f => is_nil b || all3 (fun k x y => goval_eqb (norm k x) (norm k y)) (c_xkinds c) b f) (c_xbefore c) (o_xfind c)
-    && all2 (rec_eqb fs) (o_after c) (o_first c)
-    && all2 (rec_eqb fs) (o_after c) (o_take c)
+    && all2 (if is_map_op (c_op c) then rec_eqb fs else rec_eqb_strict fs) (o_after c) (o_first c)
+    && all2 (if is_map_op (c_op c) then rec_eqb fs else rec_eqb_strict fs) (o_after c) (o_take c)
     (* ... and by reloading through the record's own primary key *)
-    && all2 (rec_eqb fs) (o_after c) (o_bykey c)
+    && all2 (if is_map_op (c_op c) then rec_eqb fs else rec_eqb_strict fs) (o_after c) (o_bykey c)
     (* Create keeps every value the caller set; zero values may take defaults / times / keys *)
     && all2 (fun b a => all3 (fun f x y => is_zero (fd_kind f) x || goval_eqb x y) fs b a) (c_before c) (o_after c)
     (* read back into maps *)
